@@ -7,7 +7,7 @@
 (* Alphabet: 1 'a', 2 'A' (folds to 'a'), 3 'b', 8 'c', 9 'd'.             *)
 (***************************************************************************)
 EXTENDS World
-CONSTANTS MaxBase, MaxFollow, Tier, Ops, MaxPairs
+CONSTANTS MaxBase, MaxFollow, Tier, Ops, MaxPairs, BaseMode
 
 Fold(ch) == IF ch = 2 THEN <<1>> ELSE <<ch>>
 MCDefaultDelim == <<58>>
@@ -24,7 +24,7 @@ TinyPool == PlainPool \cup {r \in SimplePool : (r.ps = {<<2>>} /\ r.p = <<1>>) \
 Base1 == {<<r>> : r \in (IF Tier = "quick" THEN TinyPool ELSE ValidPool)}
 Base2 == {<<r1, r2>> : <<r1, r2>> \in {t \in PlainPool \X PlainPool :
               LexLT(t[1].p, t[2].p) /\ Construct(<<t[1], t[2]>>, D, TRUE).out = Ok}}
-Bases == IF Tier = "quick" THEN Base1 ELSE Base1 \cup Base2
+Bases == IF BaseMode = "singles" THEN Base1 ELSE Base1 \cup Base2
 FollowPool == IF Tier = "quick" THEN {r \in PlainPool : r.p = <<1>>} ELSE SimplePool
 
 \* remappings over the names plus one unknown string
@@ -35,7 +35,8 @@ InjSeqs(K, V, n) == IF n = 0 THEN {<<>>}
                          S \cup {Append(s, <<k, v>>) : s \in {s \in S : Len(s) = n - 1}, k \in K, v \in V}
 Sorted(s) == \A i \in 1..(Len(s) - 1) : LexLT(s[i][1], s[i + 1][1])
 Maps(K, V) == {s \in InjSeqs(K, V, MaxPairs) : Sorted(s) /\ Injective(s)}
-Subsets == SUBSET (PNames \cup {<<9>>})
+AllSubsets == SUBSET (PNames \cup {<<9>>})
+Subsets == IF Tier = "quick" THEN {S \in AllSubsets : Cardinality(S) <= 1 \/ S = PNames \cup {<<9>>} \/ S = {<<1>>, <<9>>}} ELSE AllSubsets
 
 Derived == Len(hist) > 0 /\ \E j \in 1..Len(hist) : hist[j].k \notin {"new", "add"}
 NBase == Cardinality({j \in 1..Len(hist) : hist[j].k = "new"})
